@@ -9,5 +9,6 @@ CONSTANTS
   Secrets <- S12
   Questions <- Q0
   AllowEnd = FALSE
+  MaxRequery = 0
 INVARIANTS TypeOK InOrderNoDup AllDelivered SlotsSuffice SlotBound SMPSound
 CHECK_DEADLOCK FALSE
